@@ -1597,9 +1597,15 @@ func (th *Thread) callBuiltin(caller *Frame, b *ssa.Builtin, args []Value, cc *s
 		if s, ok := args[1].(Str); ok {
 			bs := m.strBytes(s)
 			x := args[0].(Slice)
+			inPlace := len(bs) > 0 && len(x)+len(bs) <= cap(x)
 			out := x
 			for _, bt := range bs {
 				out = append(out, Value(bt))
+			}
+			if inPlace {
+				for i := len(x); i < len(out); i++ {
+					th.onWrite(&out[i])
+				}
 			}
 			return out
 		}
